@@ -33,7 +33,7 @@ func genC02(t *rapid.T, tier string) C02Case {
 	}
 	w := core.OpWeights{
 		core.OpInsert: 20, core.OpInsertNew: 25, core.OpUpdate: 8, core.OpInsertSame: 2, core.OpDelete: 25,
-		core.OpClone: 8, core.OpPersist: 10, core.OpReload: 8, core.OpReloadJSON: 2, core.OpDrain: 1, core.OpGet: 2,
+		core.OpClone: 8, core.OpPersistFail: 2, core.OpPersist: 10, core.OpReload: 8, core.OpReloadJSON: 2, core.OpDrain: 1, core.OpGet: 2,
 	}
 	prog := core.GenProgram(t, w, maxOps, 4)
 	// sprinkle cursor/freeze captures
